@@ -57,7 +57,7 @@ def gen_links(rng, n, level_budget):
     return links
 
 
-def gen_signature(rng, nchains=None, with_cal=None, anchor=None, rfc=None, time=None, doc_alg=None, pub_time=None, long_chain=False, deprecated=None):
+def gen_signature(rng, nchains=None, with_cal=None, anchor=None, rfc=None, time=None, doc_alg=None, pub_time=None, long_chain=False, deprecated=None, first_corr=None, doc_data=None):
     """Honest signature (internally consistent by construction). Returns Sig with .doc (imprint) and .info dict."""
     if time is None:
         time = rng.choice([1136073600 + rng.randrange(0, 330000000), 1467331200 + rng.randrange(0, 300000000), 1467331199, 1467331200, rng.randrange(1, 2 ** 31)])
@@ -81,7 +81,7 @@ def gen_signature(rng, nchains=None, with_cal=None, anchor=None, rfc=None, time=
         counts[rng.randrange(nch)] = rng.choice([60, 61, 62, 63])
     budget = 255
     chains = []
-    doc = rnd_imprint(rng, doc_alg)
+    doc = rnd_imprint(rng, doc_alg) if doc_data is None else R.H(doc_alg, doc_data)
     cur = doc
     rfcrec = None
     if rfc:
@@ -103,6 +103,8 @@ def gen_signature(rng, nchains=None, with_cal=None, anchor=None, rfc=None, time=
         n = counts[i]
         lb = min(budget - level - (sum(counts[i + 1:])), max(n, per))
         links = gen_links(rng, n, max(n, lb))
+        if i == 0 and first_corr is not None:
+            links[0].corr = first_corr
         if rfc and i == 0 and links[0].corr:
             pass
         algo = rng.choice(algs)
